@@ -283,6 +283,7 @@ def run_sched(case):
             tr.flag('task-exception', '%s raised %s: %s'
                     % (t.name, type(t.exc).__name__, str(t.exc)[:80]))
     tr.trace = ['sched:%d:%d' % (s.steps, s.switches)] + s.trace[:50]
+    tr.schedule = list(s.trace)
     try:
         st.close()
     except Exception:       # noqa: B902
@@ -390,6 +391,7 @@ def run(case):
         'sample': {k: v for k, v in case.items()
                    if k not in ('seed', 'check')},
         'digest': sim.digest(repr(tr.issued), tr.viol, tr.trace),
+        'schedule': getattr(tr, 'schedule', None),
     }
 
 
